@@ -48,6 +48,8 @@ class DataCollection:
         self.datasets: list[DataSet] = []
         self.write_to_disk = threading.Event()
         self.write_finished = threading.Event()
+        # write_finished is set while no write request is outstanding
+        self.write_finished.set()
 
         ex_base_path = self.metadata.expand_format(base_path)
         p = pathlib.Path(ex_base_path)
@@ -139,13 +141,9 @@ class DataCollection:
 
     def stop(self):
         self.logger.info(f"Stopping collection: {self.name} -> {self.save_path}")
-        # Check if we are currently writing some data
-        if self.write_to_disk.is_set():
-            while not self.write_finished.wait(0.250):
-                pass
-
-        self.write_to_disk.clear()
-        self.write_finished.clear()
+        # Wait until an outstanding write request has been completed
+        while not self.write_finished.wait(0.250):
+            pass
 
         # Close all the Data Set files in the collection
         for ds in self.datasets:
@@ -192,7 +190,7 @@ class DataCollection:
             write = True
 
         if write:
-            if self.write_to_disk.is_set():
+            if not self.write_finished.is_set():
                 self.logger.warning("Unable to write fast enough.")
             else:
                 self.next_write = elapsed + DataCollection.WRITE_PERIOD
@@ -232,11 +230,11 @@ class DataCollection:
         try:
             while not self._close:
                 if self.write_to_disk.wait(0.5):
+                    # Accept the request, signal completion when it is done
+                    self.write_to_disk.clear()
                     for ds in self.datasets:
                         ds.write()
-                    # Signal completion before accepting the next request
                     self.write_finished.set()
-                    self.write_to_disk.clear()
         except KeyboardInterrupt:
             pass
         finally:
@@ -245,7 +243,7 @@ class DataCollection:
     def blocking_write(self):
         """Blocking write without bg thread"""
         if self.write_to_disk.wait(0.5):
+            self.write_to_disk.clear()
             for ds in self.datasets:
                 ds.write()
             self.write_finished.set()
-            self.write_to_disk.clear()
